@@ -12,7 +12,7 @@ Trace == ndJsonDeserialize("trace.ndjson")
 
 TInit ==
   /\ Init0
-  /\ cfg = [router |-> "P", post |-> TRUE, pkjwt |-> TRUE, refresh |-> TRUE]
+  /\ cfg = [router |-> "P"]
   /\ l = 1
 
 TStep ==
